@@ -399,6 +399,40 @@ def stepCred (j : Json) : String :=
     | .panic s => "panic:" ++ siteFn s
   s!"subj={shw (Cred.resolveSubjectDID c vp.subjects)} signer={shw (Cred.presentationSigner c vp)} presenter={pres}"
 
+def credVP (j : Json) : Cred.VP :=
+  { format := match jStr j "format" with | "jwt" => .jwt | "ldp" => .ldp | _ => .other
+    kid := optStr j "kid", proofsOk := jBool j "proofsOk", nProofs := jNat j "nProofs", parsedDID := optStr j "parsedDID",
+    subjects := (jArr j "subjects").map fun x => match x with | .str s => some s | _ => none }
+
+/-- vcr/credential/util.go PresentationIssuanceDate / PresentationExpirationDate -/
+def stepCredDates (j : Json) : String :=
+  let vp := credVP j
+  let d : CredMore.Dates :=
+    { nbf := optStr j "nbf", iat := optStr j "iat", exp := optStr j "exp", created := optStr j "created"
+      expires := if jBool j "expiresNil" then none else some (optStr j "expires") }
+  let shw : Res (Option String) → String := fun r => match r with
+    | .ok none => "nil" | .ok (some t) => t | .err e => "err:" ++ e | .panic s => "panic:" ++ siteFn s
+  s!"iss={shw (CredMore.issuanceDate Sites.credCfg vp d)} exp={shw (CredMore.expirationDate Sites.credMoreCfg Sites.credCfg vp d)}"
+
+/-- vcr/credential/util.go AutoCorrectSelfAttestedCredential -/
+def stepCredAuto (j : Json) : String :=
+  let i : CredMore.ACIn :=
+    { nProof := jNat j "nProof", idNil := jBool j "idNil", issuerEmpty := jBool j "issuerEmpty", issuanceZero := jBool j "issuanceZero"
+      subj := (jArr j "subj").map fun x => match x with | .bool b => some b | _ => none
+      nCS := jNat j "nCS" }
+  match CredMore.autoCorrect Sites.credMoreCfg i with
+  | .ok o => s!"ok id={o.setId} issuer={o.setIssuer} date={o.setDate} subject={o.setSubjectId}"
+  | .err e => "err:" ++ e
+  | .panic s => "panic:" ++ siteFn s
+
+/-- vcr/credential/util.go FilterOnDIDMethod -/
+def stepCredFilter (j : Json) : String :=
+  let creds : List CredMore.FCred := (jArr j "creds").map fun c =>
+    { issuer := optStr c "issuer", subjOk := jBool c "subjOk"
+      subjects := (jArr c "subjects").map fun b => { idEmpty := jBool b "idEmpty", method := optStr b "method" } }
+  let kept := CredMore.filterOnDIDMethod Sites.credMoreCfg (jStrs j "methods") creds
+  "kept=[" ++ String.intercalate "," (kept.map toString) ++ "]"
+
 def stepJwx (j : Json) : String :=
   let c := Sites.jwxCfg
   let i (verify : String) : Jwx.In :=
@@ -444,6 +478,9 @@ def step (st : Unit) (j : Json) : Unit × List String :=
   | "httpcache.seq" => (st, [stepHttpCache j])
   | "cred.presenter" => (st, [stepCred j])
   | "jwx.parse" => (st, [stepJwx j])
+  | "cred.dates" => (st, [stepCredDates j])
+  | "cred.autocorrect" => (st, [stepCredAuto j])
+  | "cred.filter" => (st, [stepCredFilter j])
   | "didweb.pct" => (st, [stepDidwebPct j])
   | "didweb.unescape" => (st, [stepDidwebUnescape j])
   | "didweb.url" => (st, [stepDidwebUrl j])
